@@ -31,6 +31,8 @@ type item struct {
 	ents []ent       // directory entries, parents before children
 	// defaultPath: added with an empty path argument (the store then reads <working dir>/<name>)
 	defaultPath bool
+	// mediaType: the media type handed to Add ("" = the store's default)
+	mediaType string
 }
 
 func (it item) describe() string {
@@ -394,5 +396,7 @@ func blobItems() []item {
 		{name: "empty2", mode: 0o444, data: []byte{}},
 		func() item { it := small("dirg"); it.defaultPath = true; return it }(),
 		small("dirh"),
+		// a directory added under a media type of the caller's own: still packed, marked for unpacking and restored as a tree
+		func() item { it := small("dirm"); it.mediaType = "application/vnd.acme.bundle.v1"; return it }(),
 	}
 }
